@@ -110,8 +110,9 @@ CHECKS = {
    technique="exhaustive finite grid over the per-site input space of the documented update solver, against an extended-precision reference with a three-zone refusal rule, plus all real calls recorded inside driven runs",
    text=("For each (gamma, u, dt) the whole grid |psi| x arg psi x mu x epsilon x Laplacian action (4.5e3 points per call family, 6.7e5 in quick, 5e6 in thorough incl. |psi| down to 1e-160 and dt up to 10) is classified by the reference discriminant: "
          "all clearly solvable points are submitted as one batch and must be answered with the '+' root (vs the longdouble root), real, non-negative, satisfying psi' + z|psi'|^2 = w and |psi'|^2 = x to rounding; every clearly unsolvable point is submitted "
-         "alone and embedded among solvable points and must be refused. Every call made inside adaptive driven runs (hundreds, most of them refusals) is checked by the same oracle."),
-   note="values between grid points are not explored; overflow excluded by construction; points with |disc| <= 1e-9 b^2 accept either answer"),
+         "alone and embedded among solvable points and must be refused. Every call made inside adaptive driven runs (hundreds, most of them refusals) is checked by the same oracle, and so is every step (adaptive_euler_step: the answer must solve the equation for the dt it reports) and every update as a whole "
+         "(from (psi^n, mu^n) with the link variables it ended with), with and without screening iterations. gamma ranges over {0, 1e-4, 0.1, 1, 10, 100, 1e4 | + 1e3, 1e6}."),
+   note="values between grid points are not explored; overflow excluded by construction; points whose discriminant is within 1e-9 of the magnitude of its own terms (4|c| + 1 + 4 s^2 formed from the terms of w) accept either answer"),
  "C03": dict(
    engine="mc-core", category="exploration", design_ref="DESIGN.md 3/C03",
    technique="exhaustive product of (mesh, cell-area pattern, dual-length pattern, vector potential) on which matrix identities (covering all fields by linearity) and entrywise agreement with explicit neighbour sums are evaluated",
@@ -141,10 +142,13 @@ CHECKS = {
    note="numpy.random.default_rng() is seeded by the harness inside the worker; imbalances confined to windows narrower than T/20 are outside the classes; options not constrained by validate() (save_every=0, dt_init<0) are informational only"),
  "C09": dict(
    engine="mc-core", category="model_checking", design_ref="DESIGN.md 3/C09, 2.2 (E5)",
-   technique="stateless exploration of all thread interleavings (preemption-bounded, CHESS style) of every prange kernel body on its Python source under a controlled scheduler, with a pairwise independence (conflict-freedom) check of loop iterations; plus an exhaustive process / thread-count sweep of whole runs compared by digest",
+   technique="stateless exploration of all thread interleavings (preemption-bounded, CHESS style) of every prange kernel body on its Python source under a controlled scheduler, with a pairwise independence (conflict-freedom) check of loop iterations; plus an exhaustive process / thread-count sweep of whole runs compared by digest, plus exhaustive depth-bounded enumeration of operation histories inside one process (fresh process per history) with a differential digest oracle",
    text=("Kernel level: for each of the 8 numba prange kernels the function numba compiled (.py_func) is re-created with substituted globals (prange -> per-virtual-thread iteration slice, np.empty/zeros -> one shared sentinel-filled buffer, array arguments -> proxies whose element accesses are scheduling points) "
          "and every schedule of 2-3 virtual threads with at most 1-2 preemptions is executed: each must give bitwise the sequential result, write every element of np.empty buffers, never write an input, and the logged access sets of different iterations must be conflict-free (which makes all interleavings, "
          "beyond the bound too, equivalent); no scalar may be carried across parallel iterations. The compiled kernels are run at every thread count (4 sizes) and must be bitwise thread-count independent and equal to the source up to rounding. "
-         "Run level: 6 configurations x fresh processes (PYTHONHASHSEED x output location) x thread counts {1,2,5,16 | 1..16}: sha256 over mesh arrays, every dataset, step/time/dt attributes and per-step records must coincide."),
+         "Run level: 9 configurations x fresh processes (PYTHONHASHSEED x output location) x thread counts {1,2,5,16 | 1..16}: sha256 over mesh arrays, every dataset, step/time/dt attributes and per-step records must coincide. "
+         "Session level: every history up to depth 2 | 3 over an alphabet of 20 legitimate public-API operations that leave the logical inputs unchanged (other solves on the same device / options / parameter objects, moved and re-meshed copies, "
+         "post-processing, save + load, pickling, queries, refused / aborted solves, solvers set up and kept alive, also between setting up and running the reference problem) is executed in its own fresh process; two reference simulations run afterwards "
+         "on the objects that lived through the history must give the digests (output files, post-processed fields, the inputs themselves) of the empty history."),
    note="native numba threads cannot be put under a scheduler: the binding of the explored source to the machine code is that it is the very function object numba compiled, plus the compiled-vs-source and thread-count comparisons; hardware vectorisation is constant on one machine"),
 }
